@@ -146,10 +146,10 @@ fn prefix(ex: &mut Exec, net: &mut Net, v: SideId, target: Target, rng: &mut Rng
         ex.apply(&format!("open {} {} {}", p.name(), iss_p, mtu), out);
     }
     net.pump(ex, v, 3, out);
-    let data = |rng: &mut Rng| match rng.below(4) {
-        0 => 1,
-        1 => rng.range(2, 100),
-        2 => rng.range(100, 5000),
+    let data = |rng: &mut Rng| match rng.below(10) {
+        0..=2 => 1,
+        3..=5 => rng.range(2, 100),
+        6..=8 => rng.range(100, 5000),
         _ => rng.range(5000, 70000),
     };
     if rng.chance(2, 3) {
@@ -164,7 +164,8 @@ fn prefix(ex: &mut Exec, net: &mut Net, v: SideId, target: Target, rng: &mut Rng
         }
         Target::EstablishedBusy => {
             // data in flight in both directions, nothing acknowledged yet, text left unsent
-            write(ex, v, rng.range(1000, 80000), out);
+            let n = if rng.chance(1, 5) { rng.range(10000, 80000) } else { rng.range(1000, 10000) };
+            write(ex, v, n, out);
             net.emit(ex, v, out);
             net.emit(ex, p, out);
             if rng.chance(1, 2) {
